@@ -28,7 +28,8 @@ ASSUMPTIONS = ["inputs are finite floats with magnitudes in [1e-12, 1e12], uncer
                "the model is exact over the rationals; binary rounding inside x / back_off, 10 ** k "
                "and '{:.nf}'.format is not modelled: it is bounded by the 0.05-unit allowance of the "
                "statement and the 1-unit structural slack"]
-TRUSTED = ["regex parser of the printed string (vf/props/c09.py: parse)",
+TRUSTED = ["regex parser of the printed string (vf/props/c09.py: parse; cross-checked on every case "
+           "against the Lean render of the model output)",
            "modelled not verified: CPython round(), math.log10/floor, str.format('.nf')"]
 LEVEL_TEXT = ("Lean 4 theorems about an exact rational model of printing.py whose constants are "
               "regenerated from the source on every run; the decidable predicate the theorems are "
@@ -233,6 +234,15 @@ def run(ctx, cases, ref=False):
                              "input": inp})
             continue
         mp = m["printed"]
+        # the trusted regex parser against the Lean `render` of the model's structured output
+        back = parse(m["text"])
+        if back is None or any(str(back[k]) != str(mp[k]) for k in ("mv", "me", "dv", "de", "p", "sci", "latex")):
+            failures.append({"signature": "c09:parser-roundtrip", "kind": "disagreement",
+                             "what": "parse(render(model output)) differs from the model output "
+                                     "(harness parser or Lean render wrong)", "input": inp,
+                             "impl": back, "expected": mp, "text": m["text"]})
+            continue
+        dist["parser round trips on rendered model output"] += 1
         if digits(mp) > 12:
             skipped += 1          # more than 12 printed digits: outside the statement's domain
             dist["skipped:>12 digits"] += 1
